@@ -5,12 +5,39 @@ import sys
 import time
 
 
+def _arm_watchdog(seconds):
+  """a check that does not come back (changed code that deadlocks on a real lock, a transfer that never ends) is a
+  time-out: exit 2, not a hang"""
+  import multiprocessing
+  import threading
+  seconds = int(os.environ.get('VERIF_WATCHDOG_S', seconds))
+
+  def fire():
+    sys.stdout.write('ERROR: check timed out after %d s (exit 2)\n' % seconds)
+    sys.stdout.flush()
+    for c in multiprocessing.active_children():
+      try:
+        c.terminate()
+      except Exception:  # pylint: disable=broad-except
+        pass
+    try:
+      from harness import common
+      common.cleanup_private_driver()
+    except Exception:  # pylint: disable=broad-except
+      pass
+    os._exit(2)
+  t = threading.Timer(seconds, fire)
+  t.daemon = True
+  t.start()
+
+
 def main(argv):
   if len(argv) < 3 or argv[1] not in ('quick', 'thorough', 'replay'):
     print('usage: bin/check <quick|thorough|replay> <Cxx> [--replay file]')
     return 2
   tier, prop = argv[1], argv[2]
   os.environ['VERIF_TIER'] = tier
+  _arm_watchdog(3000 if tier == 'quick' else 10800)
   from harness import engine
   try:
     mod = importlib.import_module('harness.props.%s' % prop.lower())
